@@ -113,7 +113,11 @@ func Assert(b bool, msg string) {
 func Reach(label string)    { Reached = append(Reached, label) }
 func Note(s string)         {}
 func Outside(reason string) { panic(OutsideBound{reason}) }
-func PanicOK()              {}
+// PanicOK declares that a panic from here on is the expected outcome of the
+// path (e.g. a documented panic on misuse), not a violation.
+func PanicOK() { panicOK = true }
+
+var panicOK bool
 func Symbolic() bool        { return false }
 func Concrete(x int) int    { return x }
 
@@ -223,8 +227,17 @@ func RunFile(path string, hs map[string]func()) (name, verdict string) {
 func Run(h func()) (verdict string) {
 	load()
 	Failures, Reached = nil, nil
+	panicOK = false
 	defer func() {
 		if r := recover(); r != nil {
+			if _, isAssume := r.(AssumeFailed); panicOK && !isAssume {
+				if len(Failures) > 0 {
+					verdict = "reproduced: " + Failures[0]
+				} else {
+					verdict = "held"
+				}
+				return
+			}
 			switch r := r.(type) {
 			case AssumeFailed:
 				verdict = "void: assumption not satisfied by the model"
